@@ -328,6 +328,27 @@ Section Init.
     - apply block_range in H. nia.
   Qed.
 
+  Lemma element_row_length kd s k : s < nslots kd -> k < cnt dim nd ed fd id kd ->
+    length (nth (rowpos kd s k) (D_element D) []) = nt.
+  Proof.
+    intros Hs Hk. rewrite element_groups.
+    assert (L1 : length G_nodal = length t * nd) by (unfold G_nodal; now rewrite gather_rows_length, block_length).
+    assert (L2 : length G_edge = length t2e * ede) by (unfold G_edge; now rewrite gather_rows_length, block_length).
+    assert (L3 : length G_facet = length t2f * fd) by (unfold G_facet; now rewrite gather_rows_length, block_length).
+    destruct kd; simpl in Hs, Hk; unfold rowpos.
+    - rewrite app_nth1 by (rewrite L1; nia). unfold G_nodal.
+      pose proof (gather_rows_nth (block nd nv (koff' Nodal)) t s k) as G. rewrite block_length in G.
+      rewrite G by assumption. rewrite map_length. now apply Ht.
+    - rewrite <- L1, app_nth2_plus. rewrite app_nth1 by (rewrite L2; nia). unfold G_edge.
+      pose proof (gather_rows_nth (block ede ne (koff' Edge)) t2e s k) as G. rewrite block_length in G.
+      rewrite G by assumption. rewrite map_length. now apply Ht2e.
+    - rewrite <- L1, app_nth2_plus, <- L2, app_nth2_plus. rewrite app_nth1 by (rewrite L3; nia). unfold G_facet.
+      pose proof (gather_rows_nth (block fd nf (koff' Facet)) t2f s k) as G. rewrite block_length in G.
+      rewrite G by assumption. rewrite map_length. now apply Ht2f.
+    - rewrite <- L1, app_nth2_plus, <- L2, app_nth2_plus, <- L3, app_nth2_plus. unfold G_int.
+      rewrite block_row by exact Hk. now rewrite map_length, seq_length.
+  Qed.
+
   (* tables onto their entity ranges (C11 proves this for t2f / t2e; is_valid demands it for t) *)
   Definition table_onto (T : list (list nat)) (n : nat) : Prop :=
     forall x, x < n -> exists s e, s < length T /\ e < nt /\ nth e (nth s T []) 0 = x.
@@ -348,27 +369,6 @@ Section Init.
     destruct Hslot as [s [e [Hs [He Hse]]]]. exists (rowpos kd s k), e. split; [|split; [exact He|]].
     - rewrite element_rows. destruct kd; simpl in *; nia.
     - rewrite element_entry by assumption. now rewrite Hse.
-  Qed.
-
-  Lemma element_row_length kd s k : s < nslots kd -> k < cnt dim nd ed fd id kd ->
-    length (nth (rowpos kd s k) (D_element D) []) = nt.
-  Proof.
-    intros Hs Hk. rewrite element_groups.
-    assert (L1 : length G_nodal = length t * nd) by (unfold G_nodal; now rewrite gather_rows_length, block_length).
-    assert (L2 : length G_edge = length t2e * ede) by (unfold G_edge; now rewrite gather_rows_length, block_length).
-    assert (L3 : length G_facet = length t2f * fd) by (unfold G_facet; now rewrite gather_rows_length, block_length).
-    destruct kd; simpl in Hs, Hk; unfold rowpos.
-    - rewrite app_nth1 by (rewrite L1; nia). unfold G_nodal.
-      pose proof (gather_rows_nth (block nd nv (koff' Nodal)) t s k) as G. rewrite block_length in G.
-      rewrite G by assumption. rewrite map_length. now apply Ht.
-    - rewrite <- L1, app_nth2_plus. rewrite app_nth1 by (rewrite L2; nia). unfold G_edge.
-      pose proof (gather_rows_nth (block ede ne (koff' Edge)) t2e s k) as G. rewrite block_length in G.
-      rewrite G by assumption. rewrite map_length. now apply Ht2e.
-    - rewrite <- L1, app_nth2_plus, <- L2, app_nth2_plus. rewrite app_nth1 by (rewrite L3; nia). unfold G_facet.
-      pose proof (gather_rows_nth (block fd nf (koff' Facet)) t2f s k) as G. rewrite block_length in G.
-      rewrite G by assumption. rewrite map_length. now apply Ht2f.
-    - rewrite <- L1, app_nth2_plus, <- L2, app_nth2_plus, <- L3, app_nth2_plus. unfold G_int.
-      rewrite block_row by exact Hk. now rewrite map_length, seq_length.
   Qed.
 
   Theorem all_used_in d : off <= d < off + tot -> In d (concat (D_element D)).
